@@ -198,6 +198,7 @@ structure FlowD where
   starters : List Nat := []
   fails : List Nat := []
   pre : Bool := false
+  cache : Bool := false                  -- `use_cache` on every child; the failing children get an input edited
   execs : List Nat := []                 -- children handed to the executor
   sched : List Tok := []                 -- completions: after `h` emission events / at an idle point
 
@@ -208,10 +209,14 @@ def FlowD.graph (f : FlowD) : Signal.Graph :=
     accConns := fun _ => [], lab := fun s => s, starters := f.starters, sigs := f.conns.map (·.1) }
 
 def FlowD.nodes (f : FlowD) (failing : Bool) : Nat → Signal.Node := fun i =>
-  let failAt := if failing && f.fails.contains i then (List.range 400).map (· + 1) else []
+  let bad := failing && f.fails.contains i
+  let failAt := if bad then (List.range 400).map (· + 1) else []
+  -- with caching on, a child that is to fail has an input edited (else it would answer from its cache)
   match f.ifs.find? (fun p => p.1 == i) with
-  | some p => { kind := .ifk, slots := [{ own := .bool p.2, conns := [] }], useCache := false, failAt := failAt }
-  | none => { kind := .term i, slots := [], useCache := false, failAt := failAt }
+  | some p => { kind := .ifk, slots := [{ own := if bad && f.cache then .nat 99 else .bool p.2, conns := [] }],
+                useCache := f.cache, failAt := failAt }
+  | none => { kind := .term i, slots := [{ own := if bad && f.cache then .nat 7 else .d, conns := [] }],
+              useCache := f.cache, failAt := failAt }
 
 def runFlow (f : FlowD) : List String :=
   let g := f.graph
@@ -238,7 +243,9 @@ def runFlow (f : FlowD) : List String :=
       s!"{en.child}:{if en.started then "run" else "refused"}"),
     "W truth " ++ " ".intercalate ((f.ifs.map (·.1)).map fun i => s!"{i}:{showVal' (fs.st.out i)}"),
     s!"W seen {seen}",
-    s!"W queue {s.queue.length}" ]
+    s!"W queue {s.queue.length}",
+    "W calls " ++ " ".intercalate (ids.map fun i =>
+      s!"{i}:{((fs.st.callLog.drop st0.callLog.length).filter fun c => c.1 == i).length}") ]
 where
   showVal' : Signal.Val → String
     | .bool true => "T" | .bool false => "F" | .nd => "ND" | _ => "?"
@@ -747,6 +754,7 @@ def step' (s : DSt) (ws : List String) : DSt × List String :=
     | some is => ({ s with flow := { s.flow with fails := is } }, [])
     | none => (s, ["bad-op"])
   | ["wpre"] => ({ s with flow := { s.flow with pre := true } }, [])
+  | ["wcache"] => ({ s with flow := { s.flow with cache := true } }, [])
   | "wexec" :: is => match nats is with
     | some is => ({ s with flow := { s.flow with execs := is } }, [])
     | none => (s, ["bad-op"])
